@@ -159,12 +159,32 @@ def sample_task(task):
             if text[a - 1:a] in ("<", ">", ":", "%", "?", "#", "|", "^", "=") or text[b:b + 1] in ("<", ">", ":", "%", "?", "=", "#"):
                 continue
             sites.append((i, a, b, text[a]))
+    # single edits are judged on a window of whole lines around the site (cut at NEWLINE tokens, which are token
+    # boundaries outside any multi-line token): lexing is context-free at such cuts, and a window is ~100x cheaper
+    nl_ends = [spans[k][1] for k, x in enumerate(t) if x.type == "NEWLINE"]
+
+    def window(a, b):
+        import bisect
+        k = bisect.bisect_right(nl_ends, a)
+        lo = nl_ends[k - 2] if k >= 2 else 0
+        k2 = bisect.bisect_left(nl_ends, b)
+        hi = nl_ends[k2 + 1] if k2 + 1 < len(nl_ends) else len(text)
+        return lo, hi
+
+    wcache = {}
+
+    def wbase(lo, hi):
+        if (lo, hi) not in wcache:
+            wcache[(lo, hi)] = toks(text[lo:hi], fname)[0]
+        return wcache[(lo, hi)]
+
     for (i, a, b, ch) in sites:
         for sp in ALT[ch]:
+            lo, hi = window(a, b)
             v = text[:a] + sp + text[b:]
             n += 1
-            got, exc = toks(v, fname)
-            if got != base:
+            got, exc = toks(text[lo:a] + sp + text[b:hi], fname)
+            if got != wbase(lo, hi):
                 out.append(("tokens", f"sample:k1:{x_type(t[i])}:{'digraph' if len(sp) == 2 else 'trigraph'}",
                             f"respelling {ch!r} at offset {a} as {sp!r} changes the tokens ({exc})", v))
     for which in (0, -1):
@@ -184,10 +204,11 @@ def sample_task(task):
             continue
         off = spans[i][0]
         for sp in SPLICES:
+            lo, hi = window(off, off)
             v = text[:off] + sp + text[off:]
             n += 1
-            got, exc = toks(v, fname)
-            if got != base:
+            got, exc = toks(text[lo:off] + sp + text[off:hi], fname)
+            if got != wbase(lo, hi):
                 out.append(("tokens", f"sample:splice:{'trigraph' if sp[0] == '?' else 'backslash'}:before-{t[i].type}:after-{t[i - 1].type}",
                             f"splice before token {i} {t[i].type} changes the tokens ({exc})", v))
     return n, out, len(sites)
@@ -293,7 +314,7 @@ def run(tier, seed):
             failures.append(Failure("C12", f"{kind}:{label}", f"{t[0]}: {detail[:300]}", {"kind": "file", "fname": t[0], "text": text,
                                                                                           "base": norm.render(t[2] + t[3])}))
     from .. import corpus
-    smp = [(fn, tx, 1 if tier == "thorough" else 3) for fn, tx in corpus.samples()]
+    smp = [(fn, tx, 1) for fn, tx in corpus.samples()]
     sres = explore.pmap(sample_task, smp, chunksize=2)
     for (fn, tx, _), (n, out, ns) in zip(smp, sres):
         st.runs += n
